@@ -277,11 +277,14 @@ class Chooser:
         self.script = []
         self.log = []
         self.mode = "lowhigh"
+        self.default = 0
 
-    def reset(self, script=(), mode="lowhigh"):
+    def reset(self, script=(), mode="lowhigh", default=0):
+        """default: alternative taken at points beyond the script (clamped to the number of alternatives)"""
         self.script = list(script)
         self.log = []
         self.mode = mode
+        self.default = default
 
     def alts(self, lo, hi):
         if lo > hi:
@@ -295,9 +298,12 @@ class Chooser:
     def randint(self, lo, hi):
         alts = self.alts(lo, hi)
         i = len(self.log)
-        k = self.script[i] if i < len(self.script) else 0
-        if k >= len(alts):
-            raise IndexError("choice script out of range at point %d" % i)
+        if i < len(self.script):
+            k = self.script[i]
+            if k >= len(alts):
+                raise IndexError("choice script out of range at point %d" % i)
+        else:
+            k = min(self.default, len(alts) - 1)
         v = alts[k]
         self.log.append(("randint", lo, hi, len(alts), v))
         return v
